@@ -1,4 +1,5 @@
-"""C17 — is_closed() sound and monotone (suite `pipe`, synchronous subscription algebra)."""
+"""C17 — is_closed() sound and monotone (suite `pipe`, synchronous subscription algebra; suite `time`;
+suite `composite`: histories of append / unsubscribe / is_closed on the composite subscription types)."""
 import random
 
 from .. import pipegen as pg
@@ -6,18 +7,38 @@ from ..case import Case
 from ..runner import Prop
 from .c01 import gen_cases, kinds
 from .. import timegen as tg
+from .. import compgen as cg
+
+# Which Lean transcription of `MultiSubscription::append` the driver runs in suite `composite`:
+# "code" = /repo as it is (a handle appended to an unsubscribed composite is dropped alive),
+# "fixed" = the repaired append (unsubscribes it at once).  Flip after the fix commit of finding 7.
+MODEL = "fixed"
 
 
 class C17(Prop):
     pid = "C17"
     lean_module = "RxModel.Props.C17"
+    extra_modules = ("RxModel.Props.C17S",)
     design_ref = "DESIGN.md §6 C17"
     rule = ("the C01 case population with `q closed` sampled after every event (and `unsub` injected in a third "
             "of the cases). Compared: the closed answers and the kinds of what is delivered. Oracle on the "
             "implementation alone: after an answer closed=1 nothing is delivered, later answers stay 1, and "
-            "after unsub the answer is 1. non-trivial = both answers 0 and 1 occur, or something delivered.")
-    assumptions = ["subscription types reached here: (), Subscriber, ZipSubscription, BoxSubscription (+Threads); "
-                   "MultiSubscription / TaskHandle / RefCount / Finalizer come with their own suites"]
+            "after unsub the answer is 1. non-trivial = both answers 0 and 1 occur, or something delivered. "
+            "Suite `composite`: every history of <= 5 (thorough: 6) operations over {append l0, append l1, "
+            "unsubscribe m0, unsubscribe l0, is_closed m0, emit} on one real MultiSubscription(Threads), every "
+            "sequence of <= 3 (thorough: 4) state-changing operations over two composites, a zip, a guard, clones "
+            "and task handles with all observations after each, and random histories of 7-26 operations; both "
+            "flavours. Compared line by line with the Lean model (RxModel/Sub/Composite.lean). Oracle on the "
+            "implementation alone: (a) after is_closed()=1 no leaf/task reachable through the handle at that "
+            "moment receives/runs, (b) answers are monotone, (c) after unsubscribe() every child appended before "
+            "is dead and every clone answers closed, (d) whatever is appended to an unsubscribed composite is "
+            "dead at once.")
+    assumptions = ["subscription types reached in suite pipe: (), Subscriber, ZipSubscription, BoxSubscription "
+                   "(+Threads); suite composite: MultiSubscription(Threads), ZipSubscription, BoxSubscription(Threads), "
+                   "SubscriptionGuard, Subscriber(Threads), TaskHandle<NormalReturn>; RefCount / Finalizer come with "
+                   "their own suites; the blanket impl on Rc/Arc<Option<S>> is not exercised",
+                   "composite structures are acyclic (is_closed on a composite that contains itself does not "
+                   "terminate in the real code)"]
     modelled_not_verified = "all Rust code"
 
     def cases(self, tier, seed):
@@ -47,12 +68,26 @@ class C17(Prop):
                 evs += [e, ["q", "closed"]]
             out.append(Case("time", rng.choice(["local", "threads"]), [("pipe", [pipe])], evs,
                             {"kind": "time-" + mode}))
+        # composite subscriptions on their own: append / unsubscribe / is_closed histories
+        out += cg.cases(random.Random(seed + 1717), tier, MODEL)
         return out
+
+    def corpus(self):
+        cs = super().corpus()
+        for c in cs:
+            if c.suite == "composite":      # the corpus follows the MODEL switch
+                if c.field("model") is None:
+                    c.fields.append(("model", [MODEL]))
+                else:
+                    c.set_field("model", [MODEL])
+        return cs
 
     def project(self, body):
         return kinds(tg.parse_head(body)) if body.startswith("o=") else body
 
     def oracle(self, case, lines, model_lines=None):
+        if case.suite == "composite":
+            return cg.oracle(case, lines)
         closed = False
         unsubbed = False
         for k, e in enumerate(case.events):
@@ -75,14 +110,20 @@ class C17(Prop):
         return None
 
     def nontrivial(self, case, lines):
+        if case.suite == "composite":
+            return cg.nontrivial(case, lines)
         vals = set(lines.values())
         return ("closed=0" in vals and "closed=1" in vals) or any(
             b.startswith("o=") and not (b == "o=" or b.startswith("o= ")) for b in vals)
 
     def shrink_candidates(self, case):
+        if case.suite == "composite":
+            return cg.shrink_candidates(case)
         return tg.time_shrink(case) if case.suite == "time" else super().shrink_candidates(case)
 
     def signature(self, case, failure):
+        if case.suite == "composite":
+            return f"{failure['kind']}|composite"
         if case.suite != "time":
             return super().signature(case, failure)
         node, hs = case.field("pipe")[0], []
